@@ -85,6 +85,27 @@ CHECKS = {
         "Trusted: fake threading.Timer inside mysensors.task; real file system in a scratch directory.",
         "DESIGN.md §2 C14",
     ),
+    "C12": (
+        "fault_enumeration",
+        "exhaustive crash-point / failing-operation enumeration over the recorded operation trace of a save (file interposer) x durability model, for Hypothesis-generated state pairs and all prior on-disk configurations",
+        "Every file-system operation of the save (open, each write, flush, fsync, close, both renames, remove) is a crash point (before/after) and a failing operation, with and without loss of unsynced data (synced prefix / cut / zero-filled tail); after each, a fresh gateway must load the old or the new state, and the next save must succeed. ~1.4e4 fault cases quick, ~2e5 thorough.",
+        "Trusted: the interposer sees every operation of mysensors.persistence (names open/os replaced in that module); renames/removes ordered and durable; only un-fsynced file data can be lost.",
+        "DESIGN.md §2 C12",
+    ),
+    "C13": (
+        "fault_enumeration",
+        "exhaustive enumeration of every truncation offset and zero-fill of generated valid files (both formats) x backup absent/intact/damaged; oracle: no exception, state = intact backup or empty",
+        "All truncation lengths 0..len-1 and zero-fill of the main file, crossed with seven backup variants, for Hypothesis-generated files; main and backup states have disjoint node ids so a merge is visible; followed by a save+load. Found F7 on the pinned tree.",
+        "Trusted: damage classes are those the statement names (missing, empty, truncated, zero-filled); arbitrary bit flips are out of scope.",
+        "DESIGN.md §2 C13",
+    ),
+    "C15": (
+        "fault_enumeration",
+        "exhaustive fault-position enumeration inside a scheduled save (failing file operation; concurrent message injected at every serialisation-hook call) for both gateway flavours with harness-owned timer / event loop",
+        "Per generated state: every file operation of the scheduled save fails in turn, and at every call of the JSON encoder hook / Sensor.__getstate__ a concurrent message (new node / child / value) is processed; afterwards file loadable and a state that existed, 'not dirty => file current', schedule still armed, next clean attempt persists the then-current state. Found F9 (both flavours) and F10 on the pinned tree.",
+        "Trusted: fake Timer / harness-driven asyncio.sleep + inline executor; concurrency granularity is the serialisation hooks (Python level).",
+        "DESIGN.md §2 C15",
+    ),
 }
 
 NOT_YET = {}
